@@ -423,7 +423,9 @@ func runSeq(nExt int, withInt bool, seq []string) (func(), *stack.Config) {
 					a := m.agents[actor]
 					if a.external && a.st == agNone {
 						m.apply(actor + ":reg:INVOKE")
-						issue(actor, actor+":reg:INVOKE")
+						if r, _ := issue(actor, actor+":reg:INVOKE"); r != nil && r.Status == 200 {
+							extIDs[actor] = r.Header.Get("Lambda-Extension-Identifier")
+						}
 					}
 				}
 				for _, actor := range m.order {
@@ -473,6 +475,41 @@ func runSeq(nExt int, withInt bool, seq []string) (func(), *stack.Config) {
 						if sub != got {
 							mism = append(mism, fmt.Sprintf("completion: %s subscribed to INVOKE=%v but received the event=%v", actor, sub, got))
 						}
+					}
+					// invoke phase: an extension that received the event polls again (Running -> parked), a second thread of
+					// it reports an exit error, the next invocation releases the parked call: the exit error is final
+					for _, actor := range m.order {
+						a := m.agents[actor]
+						s := c.slots[actor]
+						if !a.external || a.st != agParked || s.busy || s.last == nil || s.last.Status != 200 || stack.EventType(s.last) != "INVOKE" {
+							continue
+						}
+						if _, blocked := issue(actor, actor+":next"); !blocked {
+							mism = append(mism, fmt.Sprintf("completion: %s's second next did not park", actor))
+							break
+						}
+						x2 := &stack.Actor{W: w, P: w.K.Detached("/second-thread"), Name: "thread2:" + actor, Gen: 1, ExtID: extIDs[actor]}
+						if r := perform(x2, actor+":exiterr:typed"); r.Status != 202 {
+							mism = append(mism, fmt.Sprintf("completion: %s's exit error during its parked second next got status %d (%s), expected 202", actor, r.Status, etype(r.Body)))
+							break
+						}
+						sched.Go("client2", func() { defer stack.QuietExit(); w.ServerInvoke([]byte(`{"final":2}`)) })
+						sched.WaitQuiet()
+						x3 := &stack.Actor{W: w, P: w.K.Detached("/after-final"), Name: "thread3:" + actor, Gen: 1, ExtID: extIDs[actor]}
+						var r3 *stack.Call
+						done := false
+						sched.Go("after-final:"+actor, func() {
+							defer stack.QuietExit()
+							r3 = x3.ExtNext()
+							done = true
+						})
+						sched.WaitQuiet()
+						if !done {
+							mism = append(mism, fmt.Sprintf("completion: %s reported an exit error during its parked second next, yet after the release a further next parks (the final state was left)", actor))
+						} else if r3.Status != 403 {
+							mism = append(mism, fmt.Sprintf("completion: %s reported an exit error during its parked second next, yet a further next got status %d (%s) instead of 403", actor, r3.Status, etype(r3.Body)))
+						}
+						break // one extension is enough: the platform is failing now
 					}
 					// "both final": an extension that reported an exit error while its polling thread was parked stays in
 					// that state when the parked call is released - a further next is refused, it does not park
